@@ -220,7 +220,18 @@ func checkCountWiring(p *core.Program, r *core.Report, f *ssa.Function) *ssa.Fun
 			}
 		}
 		if l := core.InnermostLoop(core.Loops(f), addCall.Block()); l != nil {
-			if ri, ok := core.AsRange(l); ok && ri.Kind == "slice" && recvOK(ri.X, ".requiredSets") {
+			ri, ok := core.AsRange(l)
+			if !ok {
+				// counted spelling: for i := 0; i < len(S); i++
+				if cnt, isC := core.AsCounted(l); isC && cnt.Step == 1 && cnt.Op == token.LSS {
+					if z, isZ := core.ConstInt(cnt.Init); isZ && z == 0 {
+						if x, isLen := core.LenOf(cnt.Bound); isLen {
+							ri, ok = &core.RangeInfo{Loop: l, Kind: "slice", X: x, Index: cnt.Phi}, true
+						}
+					}
+				}
+			}
+			if ok && ri.Kind == "slice" && recvOK(ri.X, ".requiredSets") {
 				// the added set is the set field of the element at the range index (possibly through a local copy)
 				root, path, okP := valueAccessPath(rAdds[0])
 				if okP && len(path) == 1 {
@@ -228,7 +239,7 @@ func checkCountWiring(p *core.Program, r *core.Report, f *ssa.Function) *ssa.Fun
 						for _, rr := range core.Referrers(al) {
 							if st, ok := rr.(*ssa.Store); ok && st.Addr == al {
 								if ld, ok := st.Val.(*ssa.UnOp); ok {
-									if ia, ok := ld.X.(*ssa.IndexAddr); ok && ia.X == ri.X && ia.Index == ri.Index {
+									if ia, ok := ld.X.(*ssa.IndexAddr); ok && sameSliceLoad(ia.X, ri.X) && ia.Index == ri.Index {
 										okR = true
 									}
 								}
@@ -238,7 +249,7 @@ func checkCountWiring(p *core.Program, r *core.Report, f *ssa.Function) *ssa.Fun
 				}
 				if ld, ok := rAdds[0].(*ssa.UnOp); ok {
 					if fa, ok := ld.X.(*ssa.FieldAddr); ok {
-						if ia, ok := fa.X.(*ssa.IndexAddr); ok && ia.X == ri.X && ia.Index == ri.Index {
+						if ia, ok := fa.X.(*ssa.IndexAddr); ok && sameSliceLoad(ia.X, ri.X) && ia.Index == ri.Index {
 							okR = true
 						}
 					}
@@ -256,6 +267,16 @@ func checkCountWiring(p *core.Program, r *core.Report, f *ssa.Function) *ssa.Fun
 	r.Check(okR, "R7.2", name, "required family is exactly {the set of every element of the recipe's required sets} (full sweep)", pos, "")
 	r.Check(recvOK(length, ".Length"), "R7.2", name, "length is the recipe's Length", pos, core.Describe(length))
 	return core.StaticCallee(c)
+}
+
+// sameSliceLoad: the same SSA value, or two loads of the same field path of the same (unmodified) receiver copy.
+func sameSliceLoad(a, b ssa.Value) bool {
+	if a == b {
+		return true
+	}
+	ra, pa, ok1 := valueAccessPath(a)
+	rb, pb, ok2 := valueAccessPath(b)
+	return ok1 && ok2 && ra == rb && strings.Join(pa, ".") == strings.Join(pb, ".") && stableRoot(ra)
 }
 
 // checkCountingSchema: R7.1 / R7.6 on count(allowed, required, length).
